@@ -239,8 +239,13 @@ func init() {
 			}
 		} else {
 			for i := from; i < from+n; i++ {
-				terms = append(terms, genDefs(seed, i, gen))
+				// one term in three: definitions (and members) renamed into a non-canonical style (c02_names.go)
+				terms = append(terms, c02MaybeRestyle(genDefs(seed, i, gen), i+int(seed), ""))
 			}
+			c02Spell = "mixed" // constants: one of the spellings of the source format per term (c02_spell.go)
+		}
+		if sp, ok := args["spell"]; ok {
+			c02Spell = sp
 		}
 		j := int(seed) * 7
 		for _, d := range terms {
